@@ -1986,8 +1986,19 @@ def rule_global(ctx):
     from .rules_shape import resolve_locals
     gcls = gid.params[0] if gid.params else 'cls'
     grets = [n_ for n_ in walk_no_nested(gid.node) if isinstance(n_, ast.Return)]
+    def live_leaves(e):
+        """values a (conditional) expression can take while a graph is being recorded"""
+        if isinstance(e, ast.IfExp):
+            out_ = []
+            if _none_fact(e.test, True, gcls + '.cgraph') != 'none':
+                out_ += live_leaves(e.body)
+            if _none_fact(e.test, False, gcls + '.cgraph') != 'none':
+                out_ += live_leaves(e.orelse)
+            return out_
+        return [e]
     live = [n_ for n_ in grets if _known_none(gid, n_, gcls + '.cgraph') != 'none']      # returns reachable while a graph is being recorded
-    if live and all(n_.value is not None and norm(resolve_locals(gid, n_.value)) == '%s.cgraph.functionCount' % gcls for n_ in live):
+    vals = [l_ for n_ in live if n_.value is not None for l_ in live_leaves(resolve_locals(gid, n_.value))]
+    if live and vals and all(n_.value is not None for n_ in live) and all(norm(l_) == '%s.cgraph.functionCount' % gcls for l_ in vals):
         r.ok(construct='get_ID', sample='get_ID returns cls.cgraph.functionCount (= position of the next append)')
     else:
         r.bad(Finding('R-global', _f(gid), 'get_ID', 'get_ID no longer returns the current functionCount', gid.file, gid.lineno))
